@@ -36,7 +36,8 @@ class OctBinding(NativeKeyBinding):
     def import_from_bytes(cls, value: bytes, password: Any | None = None) -> bytes:
         # security check
         # white space or a byte order mark in front does not make it less of a key file
-        if value.lstrip(b"\xef\xbb\xbf \t\r\n\x0b\x0c").startswith(POSSIBLE_UNSAFE_KEYS):
+        # nor does explanatory text in front of the armor (RFC 7468, section 2)
+        if value.lstrip(b"\xef\xbb\xbf \t\r\n\x0b\x0c").startswith(POSSIBLE_UNSAFE_KEYS) or b"-----BEGIN " in value:
             warnings.warn("This key may not be safe to import")
         return value
 
